@@ -28,7 +28,7 @@ func TestCheck(t *testing.T) {
 	defer r.Finish()
 	r.SetRule("cases: (1) invoker stress rounds: 3-32 goroutines x 3-6 Acquire/use/Release with PRNG cleaner delays, failures and context cancellations, GOMAXPROCS in {2,4,16}; " +
 		"(2) 24 (quick) generated Acquire/Release scripts over 4 threads, each replayed once per (cleaner call index x fault kind in {fail, block-ok, block-fail, block-cancel-waiter}) with 0-3 waiters arriving while the cleaner is held; " +
-		"(3) clean-runner rounds; (4) creator-stack stress with cacheable and do_not_cache digests; (5) scripted creator sequences replayed once per failing directory-call index and per failing cleaner-call index, " +
+		"(3) clean-runner rounds, and sequences through the clean runner over NewChainedCleaner(process table cleaner, temporary directory cleaner, instrumented cleaner) replayed once per (cleaning index x failing cleaner); (4) creator-stack stress with cacheable and do_not_cache digests; (5) scripted creator sequences replayed once per failing directory-call index and per failing cleaner-call index, " +
 		"with/without a long-lived holder action and with the real DirectoryCleaner or a no-op cleaner; (6) LocalBuildExecutor runs ending ok / by runner error / by cancellation / before the run. " +
 		"non-trivial = a fault was injected or a counted situation occurred; distinct = hash of the per-call outcomes (who cleaned, who failed) resp. of the fault position and resulting call counts")
 	r.Assume("the harness never runs one cacheable digest twice at once (the scheduler's de-duplication guarantees that to the worker)")
@@ -45,6 +45,10 @@ func TestCheck(t *testing.T) {
 		r.Floor("executor-arm-"+a.name, 5)
 	}
 	r.Floor("clean-creator-base-close-fails", 5)
+	for _, s := range []string{"cleaner-chain-fault-process-table", "cleaner-chain-fault-temporary-directory", "cleaner-chain-fault-instrumented",
+		"cleaner-chain-failure-before-action", "cleaner-chain-failure-after-action", "temporary-directory-emptied-by-clean"} {
+		r.Floor(s, 5)
+	}
 	for _, s := range []string{"waiter-cancelled-during-clean", "clean-failure-on-acquire", "clean-failure-on-release", "acquirers-racing-after-release-clean",
 		"directory-creation-failure", "concurrent-actions-in-distinct-directories", "through-clean-runner",
 		"executor-ends-ok", "executor-ends-runner-error", "executor-ends-cancelled", "executor-ends-missing-command", "concurrent-executors",
@@ -90,6 +94,20 @@ func TestCheck(t *testing.T) {
 	for i := 0; i < r.Pick(60, 800); i++ {
 		rng := r.Rand(30, uint64(i))
 		cleanRunnerRound(r, runnerCfg{Round: i, Goroutines: 2 + rng.IntN(10), OpsEach: 3 + rng.IntN(5), FailPct: []int{0, 15, 40}[rng.IntN(3)]})
+	}
+
+	// (3b) the cleaners bb_runner chains (process table, temporary
+	// directory, instrumented), every cleaning failing once per kind.
+	for i := 0; i < r.Pick(4, 60); i++ {
+		base := chainCfg{Case: i, Runs: 2 + i%3, FaultAt: -1}
+		n := cleanerChainCase(r, base)
+		for _, k := range []string{"process-table", "temporary-directory", "instrumented"} {
+			for p := 0; p < n; p++ {
+				c := base
+				c.FaultKind, c.FaultAt = k, p
+				cleanerChainCase(r, c)
+			}
+		}
 	}
 
 	// (4) creator stack under concurrency.
@@ -184,6 +202,11 @@ func replay(r *ev.Run, file string) {
 		var c runnerCfg
 		if !bad(json.Unmarshal(raw, &c)) {
 			cleanRunnerRound(r, c)
+		}
+	case "cleaner-chain":
+		var c chainCfg
+		if !bad(json.Unmarshal(raw, &c)) {
+			cleanerChainCase(r, c)
 		}
 	case "failing-base":
 		var c failingBaseCfg
